@@ -77,6 +77,21 @@ fn k_c20_token_factory() {
     kani::cover!(true);
 }
 
+/// an exhausted factory (all 65536 sub-ids of the source handed out or about to be) fails loudly
+/// instead of handing out a token twice
+#[kani::proof]
+#[kani::should_panic]
+fn k_c20_token_factory_exhaustion() {
+    let raw: usize = kani::any();
+    let mut f = TokenFactory::new(TokenInner::from(raw));
+    f.next_token = TokenInner::from((raw & !0xffff) | 0xffff);
+    let a = f.token();
+    let b = f.token();
+    // not reached in a correct implementation; if it is, the two tokens must at least differ
+    assert!(a != b, "C20.fac.exhausted_factory_hands_out_a_token_twice");
+    assert!(false, "C20.fac.exhausted_factory_does_not_fail_loudly");
+}
+
 // ---------------------------------------------------------------- C02 / C16: poller table
 struct MFd(Raw);
 impl AsFd for MFd { fn as_fd(&self) -> Borrowed<'_> { unsafe { Borrowed::borrow_raw(self.0) } } }
